@@ -104,4 +104,68 @@ theorem C11_render_failure_offers_nothing (pre rest : List Staged) (sx : Staged)
   simp only [if_true] at h2
   obtain ⟨_, c6, _, h7⟩ := M.bind_ok h2
   exact ((pure_ok h7).1).symm
+theorem renderTask_plain (ev : Expr → EvalCtx → Option Val) (ts : TaskSpec) (vars : Val.Dict) (k : TaskKey)
+    (o : Offer) (hw : ts.withItems = none) (h : renderTask ev ts vars k = .ok o) :
+    o.actions.isEmpty = false ∧ o.itemsCount = none := by
+  unfold renderTask at h
+  simp only [hw, bind, Except.bind, pure, Except.pure] at h
+  repeat' split at h
+  all_goals first
+    | (cases h; done)
+    | (cases h
+       rename_i _ _ h1 _ _ _
+       refine ⟨?_, rfl⟩
+       split at h1
+       · cases h1
+       · cases h1; rfl)
+
+theorem getTask_plain (k : TaskKey) (c c' : Cond) (o : Offer) (ts : TaskSpec)
+    (hts : c.spec.getTask? k.1 = some ts) (hw : ts.withItems = none)
+    (h : getTask E k c = (.ok o, c')) : o.actions.isEmpty = false ∧ o.itemsCount = none := by
+  unfold getTask at h
+  obtain ⟨c0, c1, hget, h1⟩ := M.bind_ok h
+  obtain ⟨e1, e2⟩ := get_ok hget
+  subst e1 e2
+  obtain ⟨vars, c2, hv, h2⟩ := M.bind_ok h1
+  obtain ⟨_, e⟩ := liftExcept_ok hv
+  subst e
+  obtain ⟨ts', c3, ht, h3⟩ := M.bind_ok h2
+  obtain ⟨ht', e⟩ := liftOpt_ok ht
+  subst e
+  rw [hts] at ht'
+  cases ht'
+  obtain ⟨hr, _⟩ := liftExcept_ok h3
+  exact renderTask_plain _ ts vars k o hw hr
+
+/-- **C11/C03**: a staged task that does not iterate over items is either offered or its rendering
+    failed (and then the call offers nothing and fails the workflow): `get_next_tasks` never
+    silently passes over it -/
+theorem C11_plain_task_offered_or_failed (sx : Staged) (c c' : Cond) (ts : TaskSpec) (o : Option Offer) (f : Bool)
+    (hts : c.spec.getTask? sx.id = some ts) (hw : ts.withItems = none)
+    (h : nextTaskFor E sx c = (.ok (o, f), c')) : f = true ∨ o.isSome = true := by
+  unfold nextTaskFor at h
+  rcases tryCatch_ok h with h1 | ⟨err, c1, _, h2⟩
+  · right
+    obtain ⟨o1, c2, hg, g1⟩ := M.bind_ok h1
+    obtain ⟨hp1, hp2⟩ := getTask_plain E (sx.id, sx.route) c c2 o1 ts hts hw hg
+    obtain ⟨o2, c3, he, g2⟩ := M.bind_ok g1
+    have ho2 : o2 = o1 := by
+      unfold evaluateTaskActions at he
+      simp only [hp2] at he
+      exact ((pure_ok he).1).symm
+    subst ho2
+    have hne : (withRetryDelay sx o2).actions.isEmpty = false := by
+      unfold withRetryDelay
+      split <;> exact hp1
+    dsimp only at g2
+    simp only [hne, Bool.not_false, if_true] at g2
+    have := (pure_ok g2).1
+    injection this with h3 _
+    rw [← h3]
+    rfl
+  · left
+    obtain ⟨u, c2, _, g2⟩ := M.bind_ok h2
+    have := (pure_ok g2).1
+    injection this with _ h4
+    exact h4.symm
 end Orq
